@@ -171,6 +171,7 @@ UnfoldMayRefuse(T0, depth) ==
   LET T == Resolve(T0) IN
   IF depth = 0 THEN FALSE
   ELSE CASE T.k = "array" -> TRUE
+         [] T.k = "iface" /\ T.id # "" -> TRUE             \* a non-empty interface type: no value the unfolder builds implements it
          [] T.k = "struct" /\ HasDupNames(T) -> TRUE        \* two members of the same name: refused when the target is set
          [] T.k \in {"ptr", "slice", "map"} -> UnfoldMayRefuse(T.e[1], depth - 1)
          [] T.k = "struct" -> \E j \in 1..Len(T.f) :
